@@ -321,8 +321,10 @@ def _blocks(rng, rows, cols, n, maxside):
     return out
 
 
-STAT_SIZES = {8: [(32, 24), (40, 32), (24, 40)], 12: [(48, 36), (36, 60)], 16: [(64, 48), (48, 64), (61, 47)],
-              24: [(72, 48), (48, 72)]}
+# image sizes for the stationary clause: N = nind * box^2 small enough that 6 standard errors dominate the
+# intrinsic bias of the clipped estimator
+STAT_SIZES = {8: [(24, 16), (16, 32), (24, 24)], 12: [(36, 24), (24, 48)], 16: [(48, 32), (32, 64), (64, 48)],
+              24: [(48, 48), (72, 48)]}
 
 
 def make_group(cfg, rng, gid, big=False, force=None, stat=False, kinds=None):
@@ -570,13 +572,13 @@ def _mc_constants(values, **kw):
 def model_check(ctx, values, lat):
     quick = ctx.tier == "quick"
     if quick:
-        jobs = [("mc_propagation_6x6_1", dict(MaxRows=6, MaxCols=6, MaxBlocks=1), ["PropagationThm"]),
-                ("mc_propagation_5x5_2", dict(MaxRows=5, MaxCols=5, MaxBlocks=2), ["PropagationThm"]),
+        jobs = [("mc_propagation_6x6_1", dict(MaxRows=6, MaxCols=6, MaxBlocks=1), ["PropagationThm", "ReadingsAgree"]),
+                ("mc_propagation_5x5_2", dict(MaxRows=5, MaxCols=5, MaxBlocks=2), ["PropagationThm", "ReadingsAgree"]),
                 ("mc_design_4x4_1", dict(MaxRows=4, MaxCols=4, MaxBlocks=1, MaxCuts=1, CheckDesign=True),
                  ["PropagationThm", "DesignThm"])]
     else:
-        jobs = [("mc_propagation_6x6_2", dict(MaxRows=6, MaxCols=6, MaxBlocks=2), ["PropagationThm"]),
-                ("mc_propagation_5x5_3", dict(MaxRows=5, MaxCols=5, MaxBlocks=3), ["PropagationThm"]),
+        jobs = [("mc_propagation_6x6_2", dict(MaxRows=6, MaxCols=6, MaxBlocks=2), ["PropagationThm", "ReadingsAgree"]),
+                ("mc_propagation_5x5_3", dict(MaxRows=5, MaxCols=5, MaxBlocks=3), ["PropagationThm", "ReadingsAgree"]),
                 ("mc_design_4x4_2", dict(MaxRows=4, MaxCols=4, MaxBlocks=2, MaxCuts=2, CheckDesign=True),
                  ["PropagationThm", "DesignThm"]),
                 ("mc_design_5x5_1", dict(MaxRows=5, MaxCols=5, MaxBlocks=1, MaxCuts=2, CheckDesign=True),
@@ -618,7 +620,7 @@ def build_groups(ctx, values, lat):
     configs = pairwise_subset(lat, rng)
     pairwise_n = len(configs)
     if not quick:
-        extra = rng.sample(lat, 260)
+        extra = rng.sample(lat, 520)
         configs += [c for c in extra if c not in configs]
     groups = []
     for n, cfg in enumerate(configs):
